@@ -295,7 +295,7 @@ def run_case(case, chk=None):
     pre_term = 'None'
     pre = h['pre']
     info['dropped_by_where_close_or_filter'] = len(pre) - len(base)
-    if len(pre) <= 220 and tail_margin_ok(h, m0, s0):
+    if len(pre) <= 160 and tail_margin_ok(h, m0, s0):
         keycols = [c for c in pre.columns if c not in ('mass', 'signal')]
         if len(base):
             pidx, bad = match_rows(base, pre, keycols)
@@ -458,7 +458,7 @@ def tally_info(chk, case, info):
     if info.get('tail'):
         chk.tally('whole-tail correspondence run')
     if info.get('tail_degenerate_or_large'):
-        chk.tally('whole-tail correspondence skipped (margin below rounding / > 220 rows)')
+        chk.tally('whole-tail correspondence skipped (margin below rounding / > 160 rows)')
     if info.get('dropped_by_where_close_or_filter', 0) > 0:
         chk.tally('cases where dedupe/filter removed refine_com rows')
     chk.tally('refine_com rows removed before output', info.get('dropped_by_where_close_or_filter', 0))
@@ -477,7 +477,7 @@ def run(chk):
     common.quiet_trackpy()
     chk.coq()
     rng = chk.rng
-    n = 110 if chk.tier == 'quick' else 1500
+    n = 180 if chk.tier == 'quick' else 900
     cases, terms, results = [], [], []
     todo = [resolve_symbolic(c) for c in corpus()]
     for k in range(n):
@@ -492,8 +492,8 @@ def run(chk):
                 with warnings.catch_warnings():
                     warnings.simplefilter('ignore')
                     h = c08gen.head(case['image'], **case['kw'])
-                if len(h['pre']) > 400:
-                    chk.tally('skipped: more than 400 refine_com rows')
+                if len(h['pre']) > 250:
+                    chk.tally('skipped: more than 250 refine_com rows')
                     continue
                 case['m0'], case['s0'] = pick_base_filters(rng, h, case['kw'].get('characterize', True))
                 case['pick'] = random.Random(rng.randrange(2 ** 31))
@@ -510,7 +510,16 @@ def run(chk):
             chk.count(('locate', case_json(case)), False)
             continue
         cases.append(case); terms.append(res['term']); results.append(res)
-    codes = common.coq_eval_lists(chk.work, IMPORTS, FUNC, terms, shard=12 if chk.tier == 'quick' else 40, tag='loc')
+    # balance the shards: cost of a case ~ (rows of the table)^2 + (refine_com rows)^2
+    shard = 12 if chk.tier == 'quick' else 30
+    nb = max(1, -(-len(terms) // shard))
+    order = sorted(range(len(terms)), key=lambda i: -(results[i]['info']['n_base'] ** 2 + results[i]['info']['n_pre'] ** 2 + 50))
+    buckets = [[] for _ in range(nb)]
+    for r, i in enumerate(order):
+        buckets[r % nb if (r // nb) % 2 == 0 else nb - 1 - r % nb].append(i)
+    order = [i for b in buckets for i in b]
+    cases = [cases[i] for i in order]; terms = [terms[i] for i in order]; results = [results[i] for i in order]
+    codes = common.coq_eval_lists(chk.work, IMPORTS, FUNC, terms, shard=-(-len(terms) // nb) if terms else shard, tag='loc')
     for case, res, code in zip(cases, results, codes):
         chk.count(('locate', case_json(case)), res['info']['n_base'] >= 3)
         report(chk, case, res, code)
@@ -518,7 +527,7 @@ def run(chk):
         cj = case_json(case); cj['image'] = dict(dtype=cj['image']['dtype'], shape=cj['image']['shape'], data='(omitted)')
         chk.sample(cj)
     # where_close directly
-    nw = 300 if chk.tier == 'quick' else 6000
+    nw = 300 if chk.tier == 'quick' else 4000
     wcs, wterms = [], []
     for k in range(nw):
         w = c08gen.gen_wc(rng, chk.tier)
